@@ -758,3 +758,7 @@ func AppendSlot[T any](s []T, site uint32) []T {
 	}
 	return s
 }
+
+// WP records a write of *p and returns p: wrapped around a package-level value that is worked on in place
+// (a pointer method called on it, or its address taken).
+func WP[T any](p *T, site uint32) *T { Access(unsafe.Pointer(p), true, site); return p }
